@@ -20,7 +20,7 @@ for pid in all_ids:
         "engine": "coq-proof+correspondence",
         "level_claimed": {"category": "proof", "text": m["text"], "design_ref": m.get("design_ref", "DESIGN.md section 4 (%s)" % pid)},
         "level_note": m["note"],
-        "technique": m.get("technique", "machine-checked proof in Coq 8.16 about a hand-written Gallina model; model tied to the code by bit-level correspondence (vm_compute on primitive floats vs the compiled crate)"),
+        "technique": m.get("technique", "machine-checked proof in Coq 8.16 about a hand-written Gallina model; the model is tied to the code on every run by (i) a translator (tools/kurbo2coq) that regenerates the straight-line and simple-loop functions from the Rust source, each proved in Coq definitionally equal to the model function, and (ii) a bit-level correspondence check (the model executed by vm_compute on primitive floats against the compiled crate on the same inputs); laws sampled on the implementation supply concrete failing inputs"),
     })
 na = [{"property_id": pid, "reason": meta["not_applicable"].get(pid, "check not built yet in this round; see DESIGN.md section 4 for the plan")}
       for pid in all_ids if pid not in [c["property_id"] for c in checks]]
@@ -30,7 +30,7 @@ man = {
     "hooks": meta["hooks"],
     "engines": [{"name": "coq-proof+correspondence", "path": "/verif/check",
                  "serves_properties": [c["property_id"] for c in checks],
-                 "kind_free_text": "Coq 8.16.1 theorems (coq/Properties/*.v) about scalar-generic Gallina models (coq/model/*.v); the models are executed at binary64 inside Coq (vm_compute) on the inputs/outputs produced by a Rust harness linked against /repo's working tree and compared bit-for-bit; property laws are additionally sampled on the implementation to produce concrete replays"}],
+                 "kind_free_text": "Coq 8.16.1 theorems (coq/Properties/*.v) about scalar-generic Gallina models (coq/model/*.v), at the real instance and, where exactness is the claim, at the binary64 instance; tie 1: tools/kurbo2coq regenerates Gallina from the Rust source of ~266 functions on every run and Coq proves each definitionally equal to its model (props/translation.json, docs/TRANSLATOR.md); tie 2: the models are executed at binary64 inside Coq (vm_compute) on the inputs/outputs produced by a Rust harness linked against /repo's working tree and compared bit-for-bit; property laws are additionally sampled on the implementation to produce concrete replays"}],
     "checks": checks,
     "notes": meta["notes"],
     "not_applicable": na,
